@@ -1339,6 +1339,7 @@ def make_hostile_server(tree, outside: bytes, extreme: bool = False):
             self.nodes: Dict[bytes, List[Any]] = {b'src': [top]}
             self.registered = set()
             self.scanned = set()
+            self.dots: Dict[bytes, Any] = {}
 
         def _at(self, path: bytes):
             """Nodes at the path as the client composed it; a hostile server
@@ -1354,8 +1355,17 @@ def make_hostile_server(tree, outside: bytes, extreme: bool = False):
                 return p.rstrip(b'/') or b'/'
 
             want = norm(path)
-            return [n for key, nodes in self.nodes.items()
-                    if norm(key) == want for n in nodes]
+            found = [n for key, nodes in self.nodes.items()
+                     if norm(key) == want for n in nodes]
+
+            if not found and want.endswith((b'/.', b'/..')):
+                # the '.' and '..' every listing starts with are real
+                # directories, with something in them
+                found = [self.dots.setdefault(want, {
+                    'n': posixpath.basename(want), 't': 'd',
+                    'kids': [{'n': b'dotfile', 't': 'f', 'size': 3}]})]
+
+            return found
 
         def _find(self, path: bytes, kinds: str):
             for node in self._at(path):
@@ -1524,6 +1534,10 @@ def run_sftp_get(case) -> CaseResult:
                 # next), then a second call on the same client
                 h.run(c.mget([b'src/zz*', b'src/*', b'src/?*'], dest, **kw))
                 h.run(c.mget([b'src/*'], dest, **kw))
+            elif case['mode'] == 'mget-dot':
+                # hidden names are asked for: of the names beginning with
+                # a dot, '.' and '..' are still not entries of the directory
+                h.run(c.mget([b'src/.*', b'src/.?', b'src/*'], dest, **kw))
             else:
                 h.run(c.mget(b'src/*', dest, **kw))
 
@@ -1645,8 +1659,8 @@ def sftp_get_strategy(tier: str):
             tree = draw(get_tree(depth, 3).filter(bool))
 
         return {'v': draw(pick([3, 3, 4, 5, 6])),
-                'mode': draw(pick(['get', 'get', 'mget',
-                                             'mget-multi'])),
+                'mode': draw(pick(['get', 'get', 'mget', 'mget-multi',
+                                   'mget-dot'])),
                 'dest': draw(pick(['abs', 'abs', 'rel', 'new',
                                               'slash'])),
                 'preserve': draw(st.booleans()),
@@ -1803,7 +1817,8 @@ FAMILIES = [
                              'path:dotdot', 'rec:C', 'rec:D', 'rec:E']}),
     Family('sftp-get', run_sftp_get, strategy=sftp_get_strategy,
            budget={'quick': 700, 'thorough': 10000},
-           required={'all': ['get', 'mget', 'mget-multi', 'name:dotdot', 'name:abs',
+           required={'all': ['get', 'mget', 'mget-multi', 'mget-dot',
+                             'name:dotdot', 'name:abs',
                              'name:empty-comp', 'name:abs-into-box',
                              'dup-name', 'symlink-then-dir',
                              'outward-symlink', 'nested', 'preserve',
